@@ -618,7 +618,7 @@ func checkC34(r *ev.Run) {
 		}
 	})
 	// end-to-end cases with the node's own claim / proof senders (paced by wall-clock windows; see c34_e2e.go)
-	nE2E := r.N(6, 48)
+	nE2E := r.N(4, 48)
 	ev.ForEach(nE2E, nE2E, func(i int) {
 		si := 100000 + i
 		if r.Only != "" && r.Only != "*" && r.Only != fmt.Sprint(si) {
